@@ -614,12 +614,12 @@ class Path:
                 if st2 != "unknown":
                     status, backend = st2, "cvc5"
                     det = f"{detail} {det3}".strip()
-            if status == "unknown" and (self.ex.deadline is None or time.time() + 70 < self.ex.deadline):
-                # wall-clock limits are hit early on a busy machine: one more attempt with six times the budget
-                st3, det4, wit3 = smt_prove(self.zc, t, 6 * Z3_TIMEOUT_MS)
+            if status == "unknown" and (self.ex.deadline is None or time.time() + 40 < self.ex.deadline):
+                # wall-clock limits are hit early on a busy machine: one more attempt with three times the budget
+                st3, det4, wit3 = smt_prove(self.zc, t, 3 * Z3_TIMEOUT_MS)
                 if st3 != "unknown":
                     status, backend, wit = st3, "z3", wit3
-                    det = f"{detail} {det4} (second attempt, 6x budget)".strip()
+                    det = f"{detail} {det4} (second attempt, 3x budget)".strip()
         if status == "refuted" and getattr(self, "weak_invariant", None):
             status = "unknown"
             det = (det + " [counter-model only: the path runs through a loop contract whose invariant does not constrain "
